@@ -271,6 +271,10 @@ func C16(p *Prog, r *Run) {
 		}
 	})
 
+	r.Rule("C16.7", "same population guarantees as the sequential executor: the epoch pipeline of both executors (every species reproduces once, the progeny count is compared with PopSize for equality on the very list that is speciated, purge and ageing) - obligations shared with C02.1", func() {
+		r.epochPipeline(true)
+	})
+
 	r.Rule("C16.4", "hand-over: results carry no pointer to repository types; wg.Add precedes go, Done is deferred, Wait dominates close and the receive loop; the closure captures nothing", func() {
 		res := p.Named(PkgG, "reproductionResult")
 		st := res.Underlying().(*types.Struct)
